@@ -99,7 +99,7 @@ class Slice(NullCell):
         if rem != 2:
             raise SliceError('Unsupported address type')
         if self.preload_uint(3) % 2:
-            raise SliceError('Unsupported anycast in preload_address')
+            return self.copy().load_address()
 
         rem = self.preload_bits(267)
 
